@@ -6,7 +6,7 @@ Import ListNotations.
 From Coq Require Import ZArith.
 From CXV Require Import Gen.TokTy Gen.ParserTables Parse.Balanced Gen.Blocks Parse.BlocksSM.
 From CXV Require Import Base.Regex Base.Cost Gen.LexRules Lex.PlyLoop Gen.StreamTables Stream.TokBuf Fmt.TokFmt PP.Filters Misc.ReprModel Gen.Schema Parse.Fold Parse.Declarator Parse.DeclSpec Parse.EnumList Parse.BaseClause Parse.NsHeader Parse.Specs Parse.VarStmt Parse.FnTail Parse.Init Parse.Members Parse.MethodTail Parse.Template Parse.PQName Parse.Using Parse.EnumDecl Parse.ClassEnum Parse.TemplateArg Parse.CtorDtor Parse.ParamsX Parse.DeclStmt Parse.TemplateStmt Parse.MemberStmt Parse.OpName.
-From CXV Require Parse.DispatchLang Gen.Dispatch Parse.FinishClass Parse.ConvOp Parse.OperatorMember Parse.OperatorFn.
+From CXV Require Parse.DispatchLang Gen.Dispatch Parse.FinishClass Parse.ConvOp Parse.OperatorMember Parse.OperatorFn Parse.MethodImpl.
 From CXV Require Parse.Requires.
 Open Scope N_scope.
 
@@ -902,8 +902,24 @@ Definition run_op_fn (args : list N) : list N :=
   | DErr e => [1; e]
   end.
 
+(* 116: a method definition outside its class (qualified name).  Output: 0, rest length, nine specifier flags, segment count,
+   segment name ids, type length, function type, then the method tail as for 94 *)
+Definition run_method_impl (args : list N) : list N :=
+  let toks := dec_tks args in
+  match MethodImpl.method_impl_stmt (4 * length toks + 8) toks with
+  | DOk (mi, rest) =>
+      let q := MethodImpl.mi_tail mi in
+      let x := enc_ty (TFn (MethodImpl.mi_ret mi) (MethodImpl.mi_params mi) (MethodImpl.mi_vararg mi)) in
+      let names := flat_map (fun s => match s with SName n => [n] | _ => [0] end) (MethodImpl.mi_segs mi) in
+      0 :: nlen rest :: enc_mods (MethodImpl.mi_mods mi) ++ nlen names :: names ++ nlen x :: x ++
+        bN (q_const q) :: bN (q_volatile q) :: bN (q_override q) :: bN (q_final q) :: q_ref q ::
+        enc_opt_tks (q_throw q) ++ enc_opt_tks (q_noexcept q) ++ [bN (q_pure q); bN (q_deleted q); bN (q_default q); bN (q_body q)]
+  | DErr e => [1; e]
+  end.
+
 Definition run_case (cmd : N) (args : list N) : list N :=
   match cmd, args with
+  | 116, _ => run_method_impl args
   | 115, _ => run_op_fn args
   | 114, _ => run_op_member args
   | 113, _ => run_conv_stmt args
